@@ -30,10 +30,10 @@ static long c7_linkoff[65]; static int c7_nlinks=0;
 static ogg_stream_state c7_raw_os; static int c7_raw_open=0; static long c7_raw_pkno=0;   /* hand-muxed link under construction */   /* byte range of every 'link' appended */
 
 /* reference linear decode: per hs, concatenated per-link float data (channel-major per read chunk is awkward: store interleaved frames) */
-typedef struct { float *data; long frames; int ch; ogg_int64_t start; } c7_reflink;
+typedef struct { float *data; long frames; int ch; ogg_int64_t start; float *tail; long tailn; int tail_built; } c7_reflink;
 static c7_reflink *c7_ref[2]={0,0}; static int c7_refn[2]={0,0};
 
-static void c7_free_ref(int hs){ int i; for(i=0;i<c7_refn[hs];i++)free(c7_ref[hs][i].data); free(c7_ref[hs]); c7_ref[hs]=NULL; c7_refn[hs]=0; }
+static void c7_free_ref(int hs){ int i; for(i=0;i<c7_refn[hs];i++){ free(c7_ref[hs][i].data); free(c7_ref[hs][i].tail); } free(c7_ref[hs]); c7_ref[hs]=NULL; c7_refn[hs]=0; }
 
 static void c7_build_ref(int hs){
   OggVorbis_File vf; memsrc ms; float **pcm; int bs=-1; long r;
@@ -60,6 +60,31 @@ static void c7_build_ref(int hs){
       for(j=0;j<r&&L->frames<cap;j++,L->frames++) for(c=0;c<L->ch;c++) L->data[L->frames*L->ch+c]=pcm[c][j];
     }
   }
+  }
+  ov_clear(&vf);
+}
+
+/* what a lapped seek takes as "the audio that would have been read next" when the old position is at the end of a link: the decoder's
+   overlap half (vorbis_synthesis_lapout) of a handle that was simply played to that end with plain reads — built on demand */
+static void c7_build_tail(int hs,int li){
+  OggVorbis_File vf; memsrc ms; float **pcm; int bs=-1,errs=0; c7_reflink *L=&c7_ref[hs][li]; ogg_int64_t end;
+  L->tail_built=1; L->tail=NULL; L->tailn=0;
+  ms_init(&ms,c7_phys.p,c7_phys.n,1);
+  if(ov_open_callbacks(&ms,&vf,NULL,0,ms_callbacks(1))) return;
+  if(hs&&ov_halfrate(&vf,1)){ ov_clear(&vf); return; }
+  if(li>=ov_streams(&vf)){ ov_clear(&vf); return; }
+  end=L->start+ov_pcm_total(&vf,li);
+  while(ov_pcm_tell(&vf)<end){
+    ogg_int64_t want=(end-ov_pcm_tell(&vf))>>hs; long r;
+    if(want<1)want=1; if(want>4096)want=4096;
+    r=ov_read_float(&vf,&pcm,(int)want,&bs);
+    if(r==0)break;
+    if(r<0&&++errs>64)break;
+  }
+  if(ov_pcm_tell(&vf)>=end&&ov_pcm_tell(&vf)<=end+hs&&vf.ready_state==INITSET&&vf.seekable&&vf.current_link==li){
+    int n=vorbis_synthesis_lapout(&vf.vd,&pcm),c; long j;
+    if(n>0){ L->tail=malloc(sizeof(float)*(size_t)n*L->ch); L->tailn=n;
+      for(j=0;j<n;j++)for(c=0;c<L->ch;c++)L->tail[j*L->ch+c]=pcm[c][j]; }
   }
   ov_clear(&vf);
 }
@@ -144,8 +169,12 @@ static int c7_check_lap(c7_handle *H,int hs,float **pcm,long r,int bs,ogg_int64_
         if(li>=H->lap_k){ unknown=1; continue; } /* past the primed output: spliced before the block overlap, not comparable */
         if(c<H->lap_ch1){
           ogg_int64_t relo=((H->lap_oldpos-Lo->start)>>hs)+li; float ws=1.-wd,sv;
-          if(H->lap_oldunk||relo<0||relo>=Lo->frames){ unknown=1; continue; }
-          sv=Lo->data[relo*Lo->ch+c];
+          if(H->lap_oldunk||relo<0){ unknown=1; continue; }
+          if(relo>=Lo->frames){                              /* past the end of the old link: the decoder's overlap half */
+            if(!Lo->tail_built)c7_build_tail(hs,H->lap_oldlink);
+            if(!Lo->tail||relo-Lo->frames>=Lo->tailn){ unknown=1; continue; }
+            sv=Lo->tail[(relo-Lo->frames)*Lo->ch+c];
+          }else sv=Lo->data[relo*Lo->ch+c];
           e=d*wd + sv*ws;
         }else e=d*wd;
       }else e=d;
